@@ -206,6 +206,28 @@ Definition run_fb (maxo : Z) (r : trange) (objs : list (obj * bool * fbtype)) : 
 """
 
 
+# ------------------------------------------------------------------------------------------ extended events (Model/FilterExt.v)
+def enc_xevent(o):
+    """a gen_ext_event object (UTC DATE-TIME master VEVENT, RRULE?, RDATE, EXDATE, override components) as FilterExt.xevent"""
+    assert o["t"] == "VEVENT" and o["kind"] == "DT", o
+    e = o["end"]
+    et = "ENone" if not e else ("(EDtend %s)" % z(e[1]) if e[0] == "dtend" else "(EDuration %s)" % z(e[1]))
+    rec = o.get("rec")
+    if rec:
+        b = rec["bound"]
+        bt = "RForever" if not b else ("(RCount %s)" % z(b[1]) if b[0] == "count" else "(RUntil %s)" % z(b[1]))
+        rule = "(Some (Build_rrule %s %s %s))" % ({"HOURLY": "Hourly", "DAILY": "Daily", "WEEKLY": "Weekly"}[rec["freq"]], z(rec["interval"]), bt)
+        ex = rec["ex"]
+    else:
+        rule, ex = "None", []
+    return "(Build_xevent %s %s %s [%s] [%s] [%s])" % (
+        z(o["start"]), et, rule, ";".join(z(x) for x in o.get("rdate") or []), ";".join(z(x) for x in ex),
+        ";".join("(Build_xover %s %s %s)" % (z(v["rid"]), z(v["start"]), z(v["end"])) for v in o.get("overrides") or []))
+
+
+EXT_HEADER = HEADER + "Require Import RV.Model.FilterExt.\n"
+
+
 # ------------------------------------------------------------------------------------------ filters
 # element = ["ind"] | ["tr", start, end] | ["pf", p, spelling?] (p=1 always true, p=0 never, p=2 true on VCALENDAR)
 #           | ["cf", NAME, [children]] | ["unk"]
